@@ -18,14 +18,14 @@ type ev struct {
 func (e ev) Cancelled() handler.CancellableEvent { e.C = true; return e }
 
 type evWorld struct {
-	kinds   []string
-	simple  map[int]*handler.EventHandler[ev]
-	prio    map[int]*handler.PriorityEventHandler[ev]
-	mut     map[int]*handler.MutableEventHandler[ev]
-	cancel  map[int]*handler.CancelableEventHandler[ev]
-	reacts  map[int64][]term.T
-	nextID  int64
-	trace   []term.T
+	kinds  []string
+	simple map[int]*handler.EventHandler[ev]
+	prio   map[int]*handler.PriorityEventHandler[ev]
+	mut    map[int]*handler.MutableEventHandler[ev]
+	cancel map[int]*handler.CancelableEventHandler[ev]
+	reacts map[int64][]term.T
+	nextID int64
+	trace  []term.T
 }
 
 type evLogger struct {
